@@ -331,6 +331,7 @@ func (l *uint64LeafNode) unlock() { l.mutex.Unlock() }
 type Uint64Tree struct {
 	root  uint64Node
 	order int
+	mutex sync.Mutex // guards root; held only until the root node is locked
 }
 
 // NewUint64Tree returns a newly initialized Uint64Tree of the specified
@@ -350,6 +351,8 @@ func NewUint64Tree(order int) (*Uint64Tree, error) {
 
 // Delete removes the key-value pair from the tree.
 func (t *Uint64Tree) Delete(key uint64) {
+	t.mutex.Lock()
+	defer t.mutex.Unlock()
 	t.root.lock()
 	defer t.root.unlock()
 
@@ -368,6 +371,7 @@ func (t *Uint64Tree) Delete(key uint64) {
 // Insert inserts the key-value pair into the tree, replacing the existing value
 // with the new value if the key is already in the tree.
 func (t *Uint64Tree) Insert(key uint64, value interface{}) {
+	t.mutex.Lock()
 	n := t.root
 	n.lock()
 
@@ -390,6 +394,7 @@ func (t *Uint64Tree) Insert(key uint64, value interface{}) {
 			n = right
 		}
 	}
+	t.mutex.Unlock()
 
 	for n.isInternal() {
 		parent := n.(*uint64InternalNode)
@@ -467,8 +472,10 @@ func (t *Uint64Tree) Insert(key uint64, value interface{}) {
 func (t *Uint64Tree) Search(key uint64) (interface{}, bool) {
 	var value interface{}
 	var ok bool
+	t.mutex.Lock()
 	n := t.root
 	n.lock()
+	t.mutex.Unlock()
 	for n.isInternal() {
 		parent := n.(*uint64InternalNode)
 		child := parent.children[uint64SearchLessThanOrEqualTo(key, parent.runts)]
@@ -497,6 +504,7 @@ func (t *Uint64Tree) Search(key uint64) (interface{}, bool) {
 // returns, the key will exist in the tree with the new value returned by the
 // callback function.
 func (t *Uint64Tree) Update(key uint64, callback func(interface{}, bool) interface{}) {
+	t.mutex.Lock()
 	n := t.root
 	n.lock()
 
@@ -519,6 +527,7 @@ func (t *Uint64Tree) Update(key uint64, callback func(interface{}, bool) interfa
 			n = right
 		}
 	}
+	t.mutex.Unlock()
 
 	for n.isInternal() {
 		parent := n.(*uint64InternalNode)
@@ -603,8 +612,10 @@ func (t *Uint64Tree) Update(key uint64, callback func(interface{}, bool) interfa
 // of the locked node. The leaf node is only unlocked either by closing the
 // Cursor, or after all key-value pairs have been visited using Scan.
 func (t *Uint64Tree) NewScanner(key uint64) *Uint64Cursor {
+	t.mutex.Lock()
 	n := t.root
 	n.lock()
+	t.mutex.Unlock()
 	for n.isInternal() {
 		parent := n.(*uint64InternalNode)
 		child := parent.children[uint64SearchLessThanOrEqualTo(key, parent.runts)]
